@@ -337,6 +337,8 @@ def render_module(st, mod, stub=False) -> str:
         out += render_use(st, mod, u)
     for dep in func_level:
         out += ["def fl_%s() -> None:" % dep.replace(".", "_"), "    import %s as loc" % dep, "    loc.__name__ + 1"]
+    if m.get("all") is not None:
+        out.append("__all__ = [%s]" % ", ".join(repr(n) for n in m["all"] if n in m["exports"] and not m["exports"][n].get("hidden")))
     if m["broken"]:
         out.append("def broken(:")
     if m.get("semblock"):
@@ -372,7 +374,7 @@ def render(st) -> dict:
 # ---------------------------------------------------------------- edits
 
 EDIT_KINDS = ["change_export", "change_export", "change_export", "add_export", "remove_export", "add_use", "remove_use", "change_use", "add_import", "remove_import", "restyle_import",
-              "toggle_broken", "toggle_semblock", "toggle_ignore", "toggle_unlisted", "toggle_import_ignore", "toggle_body_error", "toggle_body_error", "delete_module", "delete_module", "add_module", "rename_module", "to_package", "add_stub", "remove_stub", "set_base", "make_subclass", "fix_errors", "toggle_hidden"]
+              "toggle_broken", "toggle_semblock", "toggle_ignore", "toggle_unlisted", "toggle_import_ignore", "toggle_body_error", "toggle_body_error", "delete_module", "delete_module", "add_module", "rename_module", "to_package", "add_stub", "remove_stub", "set_base", "make_subclass", "fix_errors", "toggle_hidden", "toggle_all", "toggle_all_member"]
 
 
 def draw_edit(st, rnd: random.Random) -> dict:
@@ -389,6 +391,16 @@ def draw_edit(st, rnd: random.Random) -> dict:
     if mod is None:
         return {"op": "add_module", "mod": "m%d" % fresh(st), "seed": op["seed"]}
     m = st["mods"][mod]
+    if kind in ("toggle_all", "toggle_all_member"):
+        # prefer a module that somebody star-imports
+        starred = sorted({d for o, om in st["mods"].items() for d, style in om["imports"].items() if style == "star" and d in st["mods"]})
+        if starred:
+            op["mod"] = mod = rnd.choice(starred)
+            m = st["mods"][mod]
+        if m["exports"]:
+            used = sorted({u["name"] for o, om in st["mods"].items() if o != mod for u in om["uses"] if u["dep"] == mod and u["name"] in m["exports"]})
+            op["name"] = rnd.choice(used or sorted(m["exports"]))
+        return op
     if kind == "toggle_hidden":
         # prefer an export that another module uses
         used = sorted({(u["dep"], u["name"]) for o, om in st["mods"].items() for u in om["uses"] if u["dep"] in st["mods"] and u["dep"] != o and u["name"] in st["mods"][u["dep"]]["exports"]})
@@ -451,6 +463,16 @@ def apply_edit(st, op) -> bool:
             u = new_use(rnd, fresh(st), op["dep"], op["name"])
             u["sig"] = k
             m["uses"].append(u)
+    elif kind == "toggle_all":
+        m["all"] = sorted(m["exports"]) if m.get("all") is None else None
+    elif kind == "toggle_all_member" and op.get("name") in m["exports"]:
+        # only __all__ changes; the definition stays as it is
+        cur = sorted(m["exports"]) if m.get("all") is None else list(m["all"])
+        if op["name"] in cur:
+            cur.remove(op["name"])
+        else:
+            cur.append(op["name"])
+        m["all"] = sorted(cur)
     elif kind == "toggle_hidden" and op.get("name") in m["exports"]:
         # the definition disappears / comes back unchanged (dependants must notice both)
         e = m["exports"][op["name"]]
@@ -548,6 +570,10 @@ def apply_edit(st, op) -> bool:
 
 
 PROFILES = {
+    # star imports and __all__ on top of "structure" (daemon experiment)
+    "structure-star": {"edits": ["change_export", "change_export", "add_export", "remove_export", "add_use", "remove_use", "change_use", "remove_import", "toggle_semblock", "change_used_export",
+                                 "toggle_ignore", "toggle_body_error", "set_base", "make_subclass", "fix_errors", "toggle_hidden", "toggle_all", "toggle_all_member", "toggle_all_member", "toggle_all_member"],
+                       "styles": ["import", "star", "star", "from"], "kinds": ["func", "func", "cls", "cls", "const", "alias", "box", "proto", "nt", "td", "dc", "enum", "ovl", "deco"]},
     # batch-mode histories that cannot close an import cycle (no add_import / add_module / restyle to star)
     "acyclic-batch": {"edits": ["change_export", "change_export", "change_used_export", "add_export", "remove_export", "add_use", "remove_use", "change_use", "remove_import", "toggle_broken", "toggle_semblock",
                                 "toggle_ignore", "toggle_body_error", "toggle_unlisted", "toggle_import_ignore", "delete_module", "rename_module", "to_package", "add_stub", "remove_stub", "set_base",
